@@ -5,7 +5,7 @@ use num_traits::Float;
 use stats_ci::mean::{Arithmetic, Geometric, Harmonic};
 use stats_ci::{Confidence, MeanCI, StatisticsOps};
 
-pub trait FElem: Float + Elem + Copy + 'static {
+pub trait FElem: Float + Elem + Copy + Send + Sync + 'static {
     fn from64(x: f64) -> Self;
 }
 impl FElem for f64 {
